@@ -75,6 +75,7 @@ static inline int op2_memcmp(const void* a, const void* b, size_t n) { __CPROVER
 #define OP2_AC(A, v, k) ((k) < sizeof((A).e) / sizeof((A).e[0]) && (A).e[(k) < sizeof((A).e) / sizeof((A).e[0]) ? (k) : 0] == (v))
 #define OP2_ARR_CONTAINS(A, v) (OP2_AC(A, v, 0) || OP2_AC(A, v, 1) || OP2_AC(A, v, 2) || OP2_AC(A, v, 3) || OP2_AC(A, v, 4) || OP2_AC(A, v, 5) || OP2_AC(A, v, 6) || OP2_AC(A, v, 7))
 
+#define OP2_IDENTITY(x) (x)
 #define OP2_TMP_ADDR(x) (&(__typeof__(x)){ x })
 
 /* 128-bit helpers so that specifications cannot wrap */
